@@ -59,7 +59,7 @@ func c18(r *rep.Run) {
 	vals = append(vals, true, false)
 	nScalar := len(vals)
 	vals = append(vals, "a", []int64{1})
-	r.Rule = "every scalar operator and every alias (33 names) x every operand count 0..4 x EVERY operand tuple over {min, min+1, -2, -1, 0, 1, 2, max-1, max, true, false, \"a\", (1)} (count 4: int/bool values only), operands written as literals, bound through variables, and mixed (first / last operand a variable, the rest literals), optimisations off and default. Oracle R4: wrapping left fold for arithmetic (min/-1 = min, min%-1 = 0), a zero divisor anywhere after the first operand is an error, comparisons and between against int64 order, n-ary eq = all equal, ne = not eq, le = not gt, ge = not lt, boolean folds, wrong counts and wrong types are errors; every alias gives exactly the outcome of its named form on every tuple. non-trivial = tuples containing an extreme value, a zero divisor or a wrong-typed operand"
+	r.Rule = "every scalar operator and every alias (33 names) x every operand count 0..4 x EVERY operand tuple over {min, min+1, -2, -1, 0, 1, 2, max-1, max, true, false, \"a\", (1)} (count 4: int/bool values only), operands written as literals, bound through variables, and mixed (first / last operand a variable, the rest literals), optimisations off and default. Oracle R4: wrapping left fold for arithmetic (min/-1 = min, min%-1 = 0), a zero divisor anywhere after the first operand is an error, comparisons and between against int64 order, n-ary eq = all equal, ne = not eq, le = not gt, ge = not lt, boolean folds, wrong counts and wrong types are errors; every alias gives exactly the outcome of its named form on every tuple. Plus, per name and arity 1..3, every tuple over look-alike values (1/\"1\", true/\"true\", 0/\"0\"/false) compiled one after the other in both orders. non-trivial = tuples containing an extreme value, a zero divisor or a wrong-typed operand"
 	r.Assume = []string{"boundary alphabet of int64 (plus a few mid-range values in the thorough tier), not all 2^64 values", "errors are compared by presence only"}
 	var names []string
 	for n, c := range ref.Alias {
@@ -275,6 +275,85 @@ func c18(r *rep.Run) {
 				}
 			}
 		}
+	}
+	// look-alike operands: for every name x arity 1..3, every tuple over values
+	// that PRINT alike but differ in type (1 / "1", true / "true", 0 / "0" /
+	// false), compiled one after the other in this process in both orders
+	// (typed first, then the look-alikes, and the reverse): each outcome is the
+	// algebra's, whatever was compiled before
+	{
+		h := hs[0]
+		look := []interface{}{int64(1), "1", true, "true", int64(0), "0", false, "false"}
+		var n int64
+		for _, name := range names {
+			for ar := 1; ar <= 3; ar++ {
+				idx := make([]int, ar)
+				var tuplesL [][]interface{}
+				for {
+					t := make([]interface{}, ar)
+					for k, x := range idx {
+						t[k] = look[x]
+					}
+					tuplesL = append(tuplesL, t)
+					k := ar - 1
+					for ; k >= 0; k-- {
+						idx[k]++
+						if idx[k] < len(look) {
+							break
+						}
+						idx[k] = 0
+					}
+					if k < 0 {
+						break
+					}
+				}
+				for pass := 0; pass < 2; pass++ {
+					for ti := range tuplesL {
+						ops := tuplesL[ti]
+						if pass == 1 {
+							ops = tuplesL[len(tuplesL)-1-ti]
+						}
+						want, werr := ref.Builtin(name, ops)
+						if werr == ref.ErrUndefined {
+							continue
+						}
+						var sb strings.Builder
+						sb.WriteString("(" + name)
+						for _, o := range ops {
+							sb.WriteString(" " + c18Lit(o))
+						}
+						sb.WriteString(")")
+						src := sb.String()
+						for _, o := range opts {
+							e, err := h.Compile(h.NewConfig(nil, o), src, 0)
+							var got drive.Out
+							if err != nil {
+								got = drive.Out{Err: err}
+								if pe, ok := err.(*drive.PanicErr); ok {
+									got = drive.Out{Panic: pe.V, Site: pe.Site}
+								}
+							} else {
+								h.Reset()
+								got = h.Eval(e, drive.NewFetcher(h, nil, o))
+							}
+							n++
+							if drive.SameOutcome(got, refOut(want, werr)) {
+								continue
+							}
+							if (term.IsAnd(name) || term.IsOr(name)) && werr != nil && got.Err == nil && got.Panic == nil {
+								if b, isB := got.Val.(bool); isB && lazyShortcut(name, ops, b) && r.KnownOpen(c18Known) {
+									r.HitKnown(c18Known)
+									continue
+								}
+							}
+							r.Violate("algebra", "lookalike"+name+fmt.Sprint(ar), sprintf("%s = %s but the operator's algebra gives %s (compiled after other calls of %s with look-alike operands)", src, got, refOut(want, werr), name), map[string]interface{}{"source": src, "config": o.String(), "pass": pass})
+						}
+					}
+				}
+			}
+		}
+		atomic.AddInt64(&evals, n)
+		r.Cov["lookalike_compilations"] = n
 	}
 	r.Cov["operand_tuples"] = tuples
 	r.Add(tuples, evals, evals, evals, nontrivial)
